@@ -73,6 +73,8 @@ def _module_for(expr_text, slots):
 
 
 def _stored(mod, slot):
+    if slot in ("typealias-value", "annotated-value"):
+        return mod.members["ta" if slot == "typealias-value" else "av"].value
     if slot == "value":
         return mod.members["x"].value
     if slot == "annotation":
@@ -360,7 +362,7 @@ STR_CASES = [
     ('"in"', '"in"'), ('"class"', '"class"'), ('list["or"]', 'list["or"]'), ('Annotated[a, "in"]', 'Annotated[a, "in"]'),
     ('"None"', "None"), ('"True"', "True"), ('Optional["None"]', "Optional[None]"), ('dict["a", "None"]', "dict[a, None]"), ('"..."', "..."),
 ]
-STR_HEAD = ("import typing, typing_extensions\nimport typing as t\nimport typing_extensions as te\nfrom typing import Literal, Optional, Annotated\n"
+STR_HEAD = ("import typing, typing_extensions\nimport typing as t\nimport typing_extensions as te\nfrom typing import Literal, Optional, Annotated, TypeAlias\n"
             "from typing import Literal as L\nfrom typing_extensions import Literal as TL\n")
 # Literal under every way of binding it x the places a string can stand relative to it
 LIT_SPELLINGS = ["Literal", "typing.Literal", "t.Literal", "L", "typing_extensions.Literal", "te.Literal", "TL"]
@@ -376,8 +378,10 @@ def _run_strings(griffe, acc):
         for src_ann, parsed in STR_CASES:
             if parsed is None:
                 continue
-            for slot in SLOTS:
+            for slot in SLOTS + ["typealias-value", "annotated-value"]:
                 body = {
+                    # the VALUE of an annotated assignment is a value, whatever the annotation says (an explicit type alias, a plain annotation)
+                    "typealias-value": f"ta: TypeAlias = {src_ann}", "annotated-value": f"av: typing.Any = {src_ann}",
                     "value": f"x = {src_ann}", "annotation": f"y: {src_ann} = 0", "param-default": f"def f(p={src_ann}): ...",
                     "param-annotation": f"def f(p: {src_ann}): ...", "returns": f"def f(p) -> {src_ann}: ...",
                     "decorator": f"@({src_ann})\ndef g(): ...", "base": f"class K({src_ann}): ...", "class-decorator": f"@({src_ann})\nclass KD: ...",
